@@ -25,6 +25,9 @@ type c04Input struct {
 	Agreed []JCR  `json:"agreed"`
 	// the report encoder fails on its EncFailAt-th call inside Reports (0 = never)
 	EncFailAt int `json:"encFailAt,omitempty"`
+	// the outcome bytes handed to Reports: "" = the encoding of Agreed; "garbage" = that encoding cut short; "invalid" =
+	// the encoding of an outcome that breaks a validation rule (its first performable listed twice)
+	BadOutcome string `json:"badOutcome,omitempty"`
 }
 type c04Impl struct {
 	Reports [][]JCR `json:"reports"`           // the returned reports, decoded from their bytes
@@ -116,6 +119,10 @@ func c04Gen(r *Rng) c04Input {
 		}
 		in.Agreed = append(in.Agreed, toJCR(res))
 	}
+	if r.Chance(6) && len(in.Agreed) > 0 && len(in.Agreed) < 100 {
+		// outcome bytes that do not decode or do not validate: Reports must refuse them, build nothing, encode nothing
+		in.BadOutcome = []string{"garbage", "invalid"}[r.Intn(2)]
+	}
 	if r.Chance(10) {
 		// the report encoder fails on one of its calls: Reports must stop there and say so (first, a middle, the last
 		// call, or a call that never happens)
@@ -141,9 +148,15 @@ func c04Run(t *testing.T, in c04Input) c04Impl {
 		synctest.Wait()
 	}()
 	outcome := ocr2keepersv3.AutomationOutcome{AgreedPerformables: fromJCRs(in.Agreed)}
+	if in.BadOutcome == "invalid" && len(outcome.AgreedPerformables) > 0 {
+		outcome.AgreedPerformables = append(outcome.AgreedPerformables, outcome.AgreedPerformables[0])
+	}
 	raw, err := outcome.Encode()
 	if err != nil {
 		return c04Impl{Err: "encode: " + err.Error()}
+	}
+	if in.BadOutcome == "garbage" {
+		raw = raw[:len(raw)-1-len(raw)/3]
 	}
 	// the same instance has already built reports for ANOTHER outcome under the same sequence number (no state may carry over)
 	if len(in.Agreed) > 1 {
